@@ -82,6 +82,10 @@ type Scenario struct {
 	Hostile      bool         `json:"hostile,omitempty"`
 	Displays     []string     `json:"displays,omitempty"` // hostile runs: display types to exercise
 	JSONVals     bool         `json:"json_vals,omitempty"`
+	// Twins: per target, a second client with the same query that leaves
+	// after LeaveNs of virtual time (0 = no twin); the first client must not
+	// notice.
+	Twins []int64 `json:"twins,omitempty"`
 }
 
 type H struct{}
@@ -201,6 +205,18 @@ func (H) Generate(rng *simrt.Rand, prop, tier string) (any, simrt.Config) {
 		sc.Targets = append(sc.Targets, t)
 	}
 	sort.Slice(sc.Breaks, func(i, j int) bool { return sc.Breaks[i].AtNs < sc.Breaks[j].AtNs })
+	if prop != "C12" && rng.Chance(0.4) {
+		sc.Twins = make([]int64, nt)
+		for i := range sc.Twins {
+			if rng.Chance(0.7) {
+				// leaves early, or between the target's sessions
+				sc.Twins[i] = int64(time.Duration(1+rng.Intn(2000)) * time.Millisecond)
+				if len(sc.Breaks) > 0 && rng.Chance(0.6) {
+					sc.Twins[i] = int64(rng.Intn(int(sc.Breaks[len(sc.Breaks)-1].AtNs))) + 1
+				}
+			}
+		}
+	}
 	if prop == "C12" {
 		sc.Hostile = true
 		sc.CLI = true
@@ -248,12 +264,18 @@ func (H) Shrinks(s any) []any {
 				}
 			}
 			c.Breaks = bs
+			c.Twins = nil
 			out = append(out, c)
 		}
 	}
 	if sc.CLI {
 		c := clone()
 		c.CLI = false
+		out = append(out, c)
+	}
+	if len(sc.Twins) > 0 {
+		c := clone()
+		c.Twins = nil
 		out = append(out, c)
 	}
 	if sc.MetaPeriodNs != 0 {
@@ -608,6 +630,21 @@ func (H) Execute(x *common.Exec, s any) {
 			subErr[i] = rc.Subscribe(ctx, q, gclient.Type)
 		})
 	}
+	for i, t := range sc.Targets {
+		if i >= len(sc.Twins) || sc.Twins[i] == 0 {
+			continue
+		}
+		i, t := i, t
+		twin := client.New()
+		x.R.Go("twin-"+t.Name, func() {
+			q := client.Query{Addrs: []string{addr}, Target: t.Name, Queries: []client.Path{{"*"}}, Type: client.Stream, Timeout: 20 * time.Second,
+				NotificationHandler: func(client.Notification) error { return nil }}
+			rc := client.Reconnect(twin, nil, nil)
+			simrt.Go(func() { rc.Subscribe(ctx, q, gclient.Type) })
+			simrt.Sleep(time.Duration(sc.Twins[i]))
+			rc.Close()
+		})
+	}
 	horizon := 90 * time.Second
 	if sc.Hostile {
 		horizon = 8 * time.Second
@@ -635,6 +672,11 @@ func (H) Execute(x *common.Exec, s any) {
 	}
 	if sc.Window <= 1 {
 		x.Fault("slow-transport-window-" + fmt.Sprint(sc.Window))
+	}
+	for _, tw := range sc.Twins {
+		if tw > 0 {
+			x.Fault("second-client-with-the-same-query-leaves")
+		}
 	}
 	if sc.Hostile {
 		x.Fault("hostile-target-stream")
